@@ -41,11 +41,24 @@ def gen_history(rng, strings, idx):
             if rng.random() < 0.3:
                 body.append("c%d := %s" % (k, S))
                 S = "c%d" % k
+            # the append flag as a literal, a variable, an expression or the result of exists()
+            def flag(v):
+                k2 = rng.random()
+                if k2 < 0.4:
+                    return "true" if v else "false"
+                if k2 < 0.6:
+                    body.append("a%d := %s" % (k, "true" if v else "false"))
+                    return "a%d" % k
+                if k2 < 0.8:
+                    return "1 == 1" if v else "1 == 2"
+                if (canon in store) == v:
+                    return "exists(%s)" % P
+                return "!exists(%s)" % P
             if op == "write":
-                body.append("write(%s, %s%s)" % (P, S, rng.choice(["", ", false"])))
+                body.append("write(%s, %s%s)" % (P, S, rng.choice(["", ", " + flag(False)])))
                 store[canon] = s.encode() + b"\n"
             else:
-                body.append("write(%s, %s, true)" % (P, S))
+                body.append("write(%s, %s, %s)" % (P, S, flag(True)))
                 store[canon] = store.get(canon, b"") + s.encode() + b"\n"
         elif op == "read":
             if canon not in store:
